@@ -1034,6 +1034,7 @@ http_url_encode(int enc_all, uint8_t *url, size_t url_size, uint8_t *buf,
 size_t
 http_url_decode(uint8_t *url, size_t url_size, uint8_t *buf, size_t buf_size) {
 	uint8_t *url_max, *buf_pos = buf, *buf_max;
+	size_t tm;
 
 	if (NULL == url || 0 == url_size || NULL == buf || 0 == buf_size)
 		return (0);
@@ -1043,8 +1044,12 @@ http_url_decode(uint8_t *url, size_t url_size, uint8_t *buf, size_t buf_size) {
 	for (; url < url_max && buf_pos < buf_max; url ++, buf_pos ++) {
 		switch (url[0]) {
 		case '%':
-			(*buf_pos) = (uint8_t)ustrh2u32((url + 1), 2);
-			url += 2;
+			tm = (size_t)(url_max - (url + 1)); /* Digits available. */
+			if (2 < tm) {
+				tm = 2;
+			}
+			(*buf_pos) = (uint8_t)ustrh2u32((url + 1), tm);
+			url += tm;
 			continue;
 		case '+':
 			(*buf_pos) = ' ';
